@@ -272,7 +272,7 @@ func genLinzKinds(r *rand.Rand, n int, tier string, emit func(string) string, ki
 			emit(fmt.Sprintf("linz cfg breaker %d 0 %d 0 0 %d %d %d -1 %d", ft, ftc, st, stc, delay, r.Intn(1000)))
 			ops = []string{"try", "try", "rs", "rf", "rf", "rs", "open", "close", "halfopen"}
 		case "bulkhead":
-			emit(fmt.Sprintf("linz cfg bulkhead %d %d", 1+r.Intn(3), pick(r, 0, 0, 150)))
+			emit(fmt.Sprintf("linz cfg bulkhead %d %d", pick(r, 0, 1, 1, 2, 2, 3, 3), pick(r, 0, 0, 150)))
 			ops = []string{"t", "t", "r", "r", "w100", "w0", "x50", "x150", "x0", "X50", "X0"}
 		case "smooth":
 			emit(fmt.Sprintf("linz cfg smooth %d", pick(r, 1, 10, 100, 1000)))
